@@ -26,7 +26,7 @@ RULE = ("programs: exprgen (0-4 dims, dims 0-13, chunks 1..dim+1, 13 dtypes, 35 
 ASSUMPTIONS = [
     "NumPy's kernel on one block is the reference function on that block (nxp.repeat/flip/concat/expand_dims/sum ...): modelled, validated by eval requests and the direct oracle",
     "zarr's OrthogonalIndexer on a regular grid yields the blocks containing selected elements, ascending per axis, C-order product: modelled (Ops.selBlocks), validated on every compared key function",
-    "a too-small block written into a chunk region is broadcast by NumPy assignment (Ops.bcastIndex): modelled, validated against the real stack result",
+    "zarr chunk writes cut a too-large block to the chunk region and broadcast a size-1 dimension (Ops.bcastIndex): modelled, validated against the real stack result on mixed chunkings",
     "tree_reduce depth = ceil(log(nb, k)) is computed in floating point: the theorem takes the depth as given and assumes k^depth >= nb; checked on every reduction met",
     "reshape_chunks is only correct when dask's reshape_rechunk aligned the in/out blocks linearly (vendored code, not modelled): theorem covers the key function (bijection) only",
     "scan is modelled for nb <= 5 or 5 | nb along the axis (otherwise the code raises AssertionError while building = decline)",
@@ -248,18 +248,41 @@ def collect_key_checks(ctx, arrs, case, reqs, metas):
                           "nblocks": ntot, "alias": alias})
 
 
-def run_key_checks(ctx, reqs, metas):
-    ans = ctx.lean.drive(DRIVER, reqs)
-    for rq, a, m in zip(reqs, ans, metas):
-        ctx.count({"req": rq, "impl": m["impl"]}, nontrivial=m["nblocks"] > 1, kind="key:" + m["kind"])
-        impl = m["impl"]
-        a = _alias_norm(a, m["alias"])
-        if a != impl:
-            ctx.disagree("Ops key function (%s) = real back_key_function" % m["kind"],
-                         {"request": rq, "program": m["case"], "op": m["op"]}, a, m["impl"])
-        if not m["offsets_ok"]:
-            ctx.disagree("offsets key = out coordinates (map_blocks_block_id)", {"request": rq, "program": m["case"]}, "out coords", "different")
+class Batch:
+    """Collect driver requests from all correspondence parts; one driver start for all of them."""
+
+    def __init__(self):
+        self.reqs, self.handlers = [], []
+
+    def add(self, req, handler):
+        self.reqs.append(req)
+        self.handlers.append(handler)
+
+    def run(self, ctx):
+        ans = ctx.lean.drive(DRIVER, self.reqs)
+        for a, h in zip(ans, self.handlers):
+            h(a)
+        for h in getattr(self, "finals", []):
+            h()
+
+
+def run_key_checks(ctx, reqs, metas, batch):
+    def mk(rq, m):
+        return lambda a: _key_answer(ctx, rq, a, m)
+    for rq, m in zip(reqs, metas):
+        batch.add(rq, mk(rq, m))
     ctx.traces += len(reqs)
+
+
+def _key_answer(ctx, rq, a, m):
+    ctx.count({"req": rq, "impl": m["impl"]}, nontrivial=m["nblocks"] > 1, kind="key:" + m["kind"])
+    impl = m["impl"]
+    a = _alias_norm(a, m["alias"])
+    if a != impl:
+        ctx.disagree("Ops key function (%s) = real back_key_function" % m["kind"],
+                     {"request": rq, "program": m["case"], "op": m["op"]}, a, m["impl"])
+    if not m["offsets_ok"]:
+        ctx.disagree("offsets key = out coordinates (map_blocks_block_id)", {"request": rq, "program": m["case"]}, "out coords", "different")
 
 
 def _alias_norm(s, alias):
@@ -396,44 +419,48 @@ def family_cases(ctx, n):
         yield case, [y], ref
 
 
-def corr_scan_accepts(ctx):
-    """The build-time assertion of scan vs the model's `scanAccepts`."""
+def corr_scan_accepts(ctx, batch):
+    """The build-time assertion of scan vs the model's `scanAccepts` (the call recurses on the reduced array:
+    the whole call is accepted iff every level is)."""
     import numpy as np
 
+    import inspect
+
     import cubed.array_api as xp
+    from cubed.core.ops import scan
     spec = _spec()
+    S = inspect.signature(scan).parameters["split_every"].default   # 5 in the pinned tree
     nbs = list(range(1, 32)) if ctx.tier == "thorough" else sorted(ctx.rng.sample(range(1, 32), 12) + [5, 6, 10])
-    reqs, impl = [], []
+    impl = {}
     for nb in nbs:
         c = ctx.rng.choice([1, 2])
-        n = nb * c
-        a = xp.asarray(np.arange(n), chunks=c, spec=spec)
+        a = xp.asarray(np.arange(nb * c), chunks=c, spec=spec)
         try:
             xp.cumulative_sum(a)
-            impl.append("true")
+            impl[nb] = "true"
         except AssertionError:
-            impl.append("false")
-        # the recursion applies scan to the reduced array too: acceptance of the whole call = all levels
-        reqs.append(nb)
-    # inner levels: ceil(nb / 5) blocks again ... compose in Python from single-level answers
+            impl[nb] = "false"
     levels = {}
-    for nb in reqs:
-        chain = []
-        m = nb
+    for nb in nbs:
+        chain, m = [], nb
         while m > 1:
             chain.append(m)
-            m = -(-m // min(5, m)) if m > 5 else 1
+            m = -(-m // min(S, m)) if m > S else 1
         levels[nb] = chain
-    allnb = sorted({m for ch in levels.values() for m in ch})
-    ans = dict(zip(allnb, ctx.lean.drive(DRIVER, ["accepts|scan|5|%d" % m for m in allnb])))
-    for nb, im in zip(reqs, impl):
-        model = "true" if all(ans[m] == "true" for m in levels[nb]) else "false"
-        ctx.count({"scan_accepts": nb, "impl": im}, nontrivial=nb > 1, kind="accepts:scan")
-        if model != im:
-            ctx.disagree("scanAccepts = (no AssertionError in scan)", {"numblocks": nb}, model, im)
+    ans = {}
+    for m in sorted({m for ch in levels.values() for m in ch}):
+        batch.add("accepts|scan|%d|%d" % (S, m), lambda a, m=m: ans.__setitem__(m, a))
+
+    def final():
+        for nb in nbs:
+            model = "true" if all(ans[m] == "true" for m in levels[nb]) else "false"
+            ctx.count({"scan_accepts": nb, "impl": impl[nb]}, nontrivial=nb > 1, kind="accepts:scan")
+            if model != impl[nb]:
+                ctx.disagree("scanAccepts = (no AssertionError in scan)", {"numblocks": nb}, model, impl[nb])
+    batch.finals = getattr(batch, "finals", []) + [final]
 
 
-def corr_utils(ctx):
+def corr_utils(ctx, batch):
     """cubed/utils.py helpers the theorems speak about: offset_to_block_id / block_id_to_offset (C01_block_id_roundtrip),
     get_item over normalize_chunks (C01_get_item_regular)."""
     from cubed.utils import block_id_to_offset, get_item, normalize_chunks, offset_to_block_id
@@ -454,14 +481,17 @@ def corr_utils(ctx):
         b = rng.randrange(len(ch[0]))
         sl = get_item(ch, (b,))[0]
         reqs.append("util|getitem|%d|%d|%d" % (n, c, b)); want.append("%d,%d" % (sl.start, sl.stop))
-    ans = ctx.lean.drive(DRIVER, reqs)
-    for rq, w, a in zip(reqs, want, ans):
-        ctx.count({"util": rq}, nontrivial=True, kind="util:" + rq.split("|")[1])
-        if a != w:
-            ctx.disagree("ArraySem.%s = cubed.utils" % rq.split("|")[1], {"request": rq}, a, w)
+    def h(rq, w):
+        def f(a):
+            ctx.count({"util": rq}, nontrivial=True, kind="util:" + rq.split("|")[1])
+            if a != w:
+                ctx.disagree("ArraySem.%s = cubed.utils" % rq.split("|")[1], {"request": rq}, a, w)
+        return f
+    for rq, w in zip(reqs, want):
+        batch.add(rq, h(rq, w))
 
 
-def corr_eval(ctx):
+def corr_eval(ctx, batch):
     """Lean whole-op semantics on small integer arrays vs NumPy (validates the reference functions) and, for stack
     with mixed chunkings, vs the real result (the model models the code that exists)."""
     import numpy as np
@@ -518,18 +548,22 @@ def corr_eval(ctx):
         reqs.append("eval|stack|0|%s|%s|%s" % (nll([[n], [n]]), nll([[c0], [c1]]), nl([2, n])))
         want.append(real)
         info.append("real stack (mixed chunks %d/%d)" % (c0, c1))
-    ans = ctx.lean.drive(DRIVER, reqs)
-    for rq, w, a, i in zip(reqs, want, ans, info):
-        ctx.count({"eval": rq}, nontrivial=True, kind="eval:" + rq.split("|")[1])
-        if w is None:
-            if "x" not in a.split(","):
-                ctx.disagree("stackEval fails <-> the real task fails", {"request": rq}, a, "exception")
-        elif a != w:
-            ctx.disagree("Lean whole-op semantics = %s" % i, {"request": rq}, a, w)
+    def h(rq, w, i):
+        def f(a):
+            ctx.count({"eval": rq}, nontrivial=True, kind="eval:" + rq.split("|")[1])
+            if w is None:
+                if "x" not in a.split(","):
+                    ctx.disagree("stackEval fails <-> the real task fails", {"request": rq}, a, "exception")
+            elif a != w:
+                ctx.disagree("Lean whole-op semantics = %s" % i, {"request": rq}, a, w)
+        return f
+    for rq, w, i in zip(reqs, want, info):
+        batch.add(rq, h(rq, w, i))
 
 
 def corr(ctx):
     _quiet()
+    t0 = ctx.elapsed()
     reqs, metas = [], []
     ncase = 0
     for case, arrs, ref in family_cases(ctx, ctx.budget(140, 1000)):
@@ -550,10 +584,16 @@ def corr(ctx):
             continue
         collect_key_checks(ctx, arrs, p.describe(), reqs, metas)
         check_reduction_done(ctx, arrs, p.describe())
-    run_key_checks(ctx, reqs, metas)
-    corr_scan_accepts(ctx)
-    corr_utils(ctx)
-    corr_eval(ctx)
+    t1 = ctx.elapsed()
+    batch = Batch()
+    run_key_checks(ctx, reqs, metas, batch)
+    corr_scan_accepts(ctx, batch)
+    corr_utils(ctx, batch)
+    corr_eval(ctx, batch)
+    t2 = ctx.elapsed()
+    batch.run(ctx)
+    ctx.notes.append("timing: corr started at %.0fs, building real plans %.0fs, real side of other relations %.0fs, driver %.0fs (%d requests)"
+                     % (t0, t1 - t0, t2 - t1, ctx.elapsed() - t2, len(batch.reqs)))
 
 
 def check_reduction_done(ctx, arrs, case):
@@ -933,13 +973,16 @@ def replay(ctx, body):
 
 def oracle(ctx):
     _quiet()
+    t0 = ctx.elapsed()
     known_triggers(ctx)
-    oracle_programs(ctx, ctx.budget(150, 1100), n_proc=ctx.budget(2, 10))
+    ctx.notes.append("timing: known triggers %.0fs" % (ctx.elapsed() - t0))
+    oracle_programs(ctx, ctx.budget(110, 1100), n_proc=ctx.budget(2, 10))
     # the op families behind the modelled key functions, more densely
     dense = ["repeat", "flip", "index", "take", "concat", "roll", "tile", "pad", "stack", "unstack", "reduce", "argreduce",
              "cumulative", "reshape", "rechunk", "matmul", "searchsorted"]
-    oracle_programs(ctx, ctx.budget(120, 900), families=dense + ["binary", "unary"], tag="dense")
+    oracle_programs(ctx, ctx.budget(90, 900), families=dense + ["binary", "unary"], tag="dense")
     _close_pool()
+    ctx.notes.append("timing: oracle total %.0fs" % (ctx.elapsed() - t0))
 
 
 def search(ctx):
